@@ -834,6 +834,11 @@ def ssh_msg_dec(ctx, h):
     if not rt.same(rec.packet, obj):
         raise RoundTripError('the message comes back as another one from a binary packet of its context')
     code = int(obj.get_message_code())
+    # the messages made of byte, uint32 and string fields only have a single spelling (Props/C07.v: C07_rigid_messages_one_encoding):
+    # what was accepted must be composed back to exactly the octets that were consumed
+    if isinstance(obj, (sp.SshDisconnectMessage, sp.SshUnimplementedMessage, sp.SshNewKeys, sp.SshDHGroupExchangeRequest)):
+        if bytes(obj.compose()) != payload:
+            raise RoundTripError('an accepted message of single-spelling fields is not composed back to the octets received')
     if isinstance(obj, sp.SshDisconnectMessage):
         fs = ['U%d' % int(obj.reason), 'S' + obj.description.encode('utf-8').hex(), 'S' + str(obj.language).encode('ascii').hex()]
     elif isinstance(obj, sp.SshUnimplementedMessage):
